@@ -73,6 +73,12 @@ m("w10-rsh-threshold", "func bigIntRsh(i *big.Int, j *big.Int) *big.Int {\n\tif 
 m("w11-lowermin-uint64-as-int64", "(x[0].extra == 0 && y.extra == 0 && x[0].i.Cmp(y.i) > 0) {", "(x[0].extra == 0 && y.extra == 0 && (x[0].i.IsUint64() && y.i.IsUint64() && int64(x[0].i.Uint64()) > int64(y.i.Uint64()) || !(x[0].i.IsUint64() && y.i.IsUint64()) && x[0].i.Cmp(y.i) > 0)) {")
 m("w12-sub-neg-int64", "\t\tz[1] = big.NewInt(0).Sub(x[1], y[0])", "\t\tz[1] = big.NewInt(0).Sub(x[1], y[0])\n\t\tif y[0].IsInt64() && x[1].Sign() == 0 {\n\t\t\tz[1].SetInt64(-y[0].Int64())\n\t\t}")
 
+# round 2: storage
+m("s3-andmax-return-operand", "\t\treturn big.NewInt(0).Set(min)", "\t\treturn min")
+m("s7-or-halfinf-fill-operand", "\t\ty[1] = big.NewInt(0).Set(y[0])\n\t\tbitFillRight(y[1])", "\t\ty[1] = y[0]\n\t\tbitFillRight(y[1])")
+m("s9-mask-and-in-place", "\t\tmask := bitMask(neg[0].BitLen(), non[1].BitLen())\n\t\tbiasedNeg := IntRange{\n\t\t\tbig.NewInt(0).And(mask, neg[0]),", "\t\tmask := bitMask(neg[0].BitLen(), non[1].BitLen())\n\t\tbiasedNeg := IntRange{\n\t\t\tbig.NewInt(0).Set(mask.And(mask, neg[0])),")
+m("s10-quo-zero-shared", "\tif x.justZero() {\n\t\treturn IntRange{big.NewInt(0), big.NewInt(0)}, true\n\t}\n\n\tret := newBiggerIntPair()\n\n\t// Split x and y into negative, zero and positive parts.\n\tnegX, posX, hasNegX, hasZeroX, hasPosX := x.split3Ways()\n\tnegY, posY, hasNegY, _, hasPosY := y.split3Ways()", "\tif x.justZero() {\n\t\treturn IntRange{smallBitMasks[0], big.NewInt(0)}, true\n\t}\n\n\tret := newBiggerIntPair()\n\n\t// Split x and y into negative, zero and positive parts.\n\tnegX, posX, hasNegX, hasZeroX, hasPosX := x.split3Ways()\n\tnegY, posY, hasNegY, _, hasPosY := y.split3Ways()")
+
 
 def mutate(edits):
     src = open(ORIG).read()
